@@ -22,11 +22,11 @@
    what SELECT / SHOW FULL COLUMNS / information_schema / SHOW INDEX report with Exp (post-state). *)
 EXTENDS SQLSem, Json
 
-CONSTANTS ColNames, IdxNames, MaxCols, MaxRows, MaxSteps, Level
+CONSTANTS ColNames, IdxNames, MaxCols, MaxRows, MaxSteps, Level, MCTpls
 
-VARIABLES tname, cols, pk, idx, rows, act, ret, step
+VARIABLES tname, cols, pk, idx, rows, act, ret, step, taint
 data == <<tname, cols, pk, idx, rows>>
-vars == <<tname, cols, pk, idx, rows, act, ret, step>>
+vars == <<tname, cols, pk, idx, rows, act, ret, step, taint>>
 
 \* ---------------------------------------------------------------- types and values
 \* a column default is a TAG: "" = none, "i9" = 9, "sx" = 'x' (tags, not values, so that candidate sets never
@@ -41,14 +41,14 @@ InRangeK(k, v) == CASE k = "tinyint" -> v >= -128 /\ v <= 127
                     [] OTHER -> TRUE
 ZeroOfTy(ty) == IF IsIntTy(ty) THEN I(0) ELSE S(<<>>)
 
-TypePool == IF Level = "small"
+TypePool == IF Level \in {"tiny", "small"}
             THEN {TInt("tinyint"), TInt("int"), TVar(2, "bin"), TVar(4, "ci")}
             ELSE {TInt("tinyint"), TInt("smallint"), TInt("int"),
                   TVar(2, "bin"), TVar(4, "bin"), TVar(8, "bin"), TVar(2, "ci"), TVar(4, "ci"), TVar(8, "ci")}
-IntVals == IF Level = "small" THEN <<0, 7, 200>>
+IntVals == IF Level = "tiny" THEN <<7, 200>> ELSE IF Level = "small" THEN <<0, 7, 200>>
            ELSE <<-129, -5, 0, 7, 9, 127, 128, 200, 32767, 32768, 70000>>
 \* "", a, A, ab, Ab, 7, -5, 130, 40000, abcde, x
-StrVals == IF Level = "small" THEN << <<97>>, <<65>>, <<55>>, <<49, 51, 48>> >>
+StrVals == IF Level \in {"tiny", "small"} THEN << <<97>>, <<65>>, <<55>>, <<49, 51, 48>> >>
            ELSE << <<>>, <<97>>, <<65>>, <<97, 98>>, <<65, 98>>, <<55>>, <<45, 53>>, <<49, 51, 48>>,
                    <<52, 48, 48, 48, 48>>, <<97, 98, 99, 100, 101>>, <<120>> >>
 
@@ -218,17 +218,60 @@ Pre(a) == Struct(a) /\ (a.op \notin {"CreateTable", "RenameTable"} => DataOK(a, 
 
 \* ---------------------------------------------------------------- crispness
 InUniqueKey(c) == c \in Range(pk) \/ \E x \in idx : x.uniq /\ c \in Range(x.cols)
+SecIdxCols == UNION {Range(x.cols) : x \in idx}
+\* Statements that TRIGGER a recorded defect of the in-memory backend which corrupts the table's secondary
+\* indexes silently (the damage shows statements later, in many shapes) are not generated at random; each has
+\* a finding with a witness behaviour that is replayed on every run (known_findings.jsonl, findings/C21-*):
+\*   K1  RENAME TABLE of a table with secondary indexes            (C21-rename-table-corrupts-secondary-indexes)
+\*   K2  MODIFY / RENAME of a primary-key column, secondary indexes (C21-modify-pk-column-corrupts-index-pk-ordinals)
+\*   K4  DROP PRIMARY KEY of a table with secondary indexes         (C21-drop-pk-leaves-stale-index-key-columns)
+\*   K5  in-place ADD COLUMN (NULL, no default) before an indexed or primary-key column, secondary indexes
+\*                                                                  (C21-add-column-before-indexed-column)
+\*   K6  MODIFY with a table rewrite (reordering, NULL -> NOT NULL) that changes the type of an indexed column
+\*                                                                  (C21-modify-rewrite-keeps-old-type-in-index)
+TriggerId(a) ==
+  CASE a.op = "RenameTable" -> IF a.t = tname /\ a.t2 # tname /\ idx # {} THEN "K1" ELSE ""
+    [] a.op \in {"ModifyColumn", "ChangeCollation"} ->
+         IF a.t # tname \/ ~HasCol(cols, a.col.name) THEN ""
+         ELSE IF a.col.name \in Range(pk) /\ idx # {} THEN "K2"
+         ELSE IF /\ a.col.name \in SecIdxCols
+                 /\ LET old == cols[PosOf(cols, a.col.name)] IN
+                    old.ty # a.col.ty /\ (a.pos # "last" \/ (~old.nn /\ a.col.nn))
+              THEN "K6" ELSE ""
+    [] a.op = "RenameColumn" -> IF a.t = tname /\ a.c \in Range(pk) /\ idx # {} THEN "K2" ELSE ""
+    [] a.op = "DropPrimaryKey" -> IF a.t = tname /\ pk # <<>> /\ idx # {} THEN "K4" ELSE ""
+    [] a.op = "AddColumn" -> IF /\ Struct(a) /\ ~a.col.nn /\ a.col.def = NoDef
+                                /\ idx # {} /\ \E c \in SecIdxCols \cup Range(pk) : PosOf(cols, c) >= AtOf(cols, a)
+                             THEN "K5" ELSE ""
+    [] OTHER -> ""
+KnownTrigger(a) == TriggerId(a) # ""
 Crisp(a) ==
   /\ \* keys over _ai_ci columns: the in-memory editor compares them byte-wise (recorded under C13/C14);
      \* the specification commits only where the byte-wise and the collation-aware outcome agree
      (Struct(a) /\ a.op \notin {"CreateTable", "RenameTable"}) => (DataOK(a, TRUE) <=> DataOK(a, FALSE))
+  /\ ~KnownTrigger(a)
   /\ CASE a.op = "AddColumn" -> a.t = tname => Len(cols) < MaxCols
        [] a.op = "Insert" -> Len(rows) < MaxRows                                          \* bound of the model only
-       [] a.op = "DropColumn" -> (a.t = tname /\ HasCol(cols, a.c)) => ~InUniqueKey(a.c)        \* recorded under C43
+       [] a.op = "DropColumn" -> (a.t = tname /\ HasCol(cols, a.c)) => (~InUniqueKey(a.c) /\ Len(cols) > 1)   \* recorded under C43
        [] a.op = "RenameColumn" -> (a.t = tname /\ HasCol(cols, a.c)) => ~(a.c \in Range(pk) /\ Len(pk) > 1)   \* recorded under C43
        [] a.op \in {"ModifyColumn", "ChangeCollation"} ->
             (a.t = tname /\ HasCol(cols, a.col.name)) => ((a.col.name \in Range(pk) => a.col.nn) /\ a.after # a.col.name)
        [] OTHER -> TRUE
+
+\* features of a statement that the harness puts into the signature of a disagreement (evaluated in the pre-state)
+ConvLenient(v, from, to) == IF ~IsN(v) /\ ~IsIntTy(from) /\ IsIntTy(to) /\ v.v = <<>> THEN [ok |-> TRUE, v |-> I(0)] ELSE Conv(v, from, to)
+Tags(a) ==
+  [i \in 1..Cardinality(taint') |-> "after:" \o SetToSeq(taint')[i]] \o
+  CASE a.op = "AddIndex" ->
+         (IF a.uniq THEN <<"uniq">> ELSE <<>>)
+         \o (IF Struct(a) /\ \E j \in DOMAIN a.cols : PosOf(cols, a.cols[j]) # j THEN <<"shifted">> ELSE <<>>)
+    [] a.op \in {"ModifyColumn", "ChangeCollation"} ->
+         IF Struct(a) /\ ~ModOK(a)
+            /\ \A i \in DOMAIN rows : ConvLenient(rows[i][PosOf(cols, a.col.name)], cols[PosOf(cols, a.col.name)].ty, a.col.ty).ok
+         THEN <<"emptystr">> ELSE <<>>
+    [] a.op = "DropColumn" ->
+         IF Struct(a) /\ idx # {} /\ \E c \in Range(pk) : PosOf(cols, c) > PosOf(cols, a.c) THEN <<"hasidx", "beforepk">> ELSE <<>>
+    [] OTHER -> <<>>
 
 \* ---------------------------------------------------------------- candidate statements
 Distinct2(Sx) == {p \in Sx \X Sx : p[1] # p[2]}
@@ -242,11 +285,15 @@ CandOf(op) ==
   LET T == {"t", "u"} IN
   CASE op = "Insert" -> {[op |-> "Insert", t |-> tname, vals |-> v] : v \in RowsOver(cols)}
     [] op = "AddColumn" ->
-         {[op |-> "AddColumn", t |-> tname, col |-> c, pos |-> p.pos, after |-> p.after] : c \in NewCols(ColNames), p \in PosChoices}
+         \* every free name and (for the failing case) one name that is taken
+         {[op |-> "AddColumn", t |-> tname, col |-> c, pos |-> p.pos, after |-> p.after] :
+          c \in NewCols((ColNames \ NamesOf(cols)) \cup {CHOOSE n \in NamesOf(cols) : TRUE}), p \in PosChoices}
     [] op = "DropColumn" -> {[op |-> "DropColumn", t |-> tname, c |-> c] : c \in ColNames}
     [] op = "RenameColumn" -> {[op |-> "RenameColumn", t |-> tname, c |-> p[1], c2 |-> p[2]] : p \in Distinct2(ColNames)}
     [] op = "ModifyColumn" ->
-         {[op |-> "ModifyColumn", t |-> tname, col |-> c, pos |-> p.pos, after |-> p.after] : c \in NewCols(ColNames), p \in PosChoices}
+         \* every column and (for the failing case) one name that is free
+         {[op |-> "ModifyColumn", t |-> tname, col |-> c, pos |-> p.pos, after |-> p.after] :
+          c \in NewCols(NamesOf(cols) \cup (IF ColNames \subseteq NamesOf(cols) THEN {} ELSE {CHOOSE n \in ColNames \ NamesOf(cols) : TRUE})), p \in PosChoices}
     [] op = "ChangeCollation" ->
          {[op |-> "ChangeCollation", t |-> tname, col |-> [cols[i] EXCEPT !.ty.coll = IF @ = "ci" THEN "bin" ELSE "ci"], pos |-> "last", after |-> ""] :
           i \in {j \in DOMAIN cols : ~IsIntTy(cols[j].ty)}}
@@ -260,10 +307,13 @@ CandOf(op) ==
 Ops == {"Insert", "AddColumn", "DropColumn", "RenameColumn", "ModifyColumn", "ChangeCollation", "AddPrimaryKey", "DropPrimaryKey",
         "AddIndex", "DropIndex", "RenameTable"}
 
-Init == tname = "" /\ cols = <<>> /\ pk = <<>> /\ idx = {} /\ rows = <<>> /\ act = [op |-> "init"] /\ ret = "none" /\ step = 0
+Init == tname = "" /\ cols = <<>> /\ pk = <<>> /\ idx = {} /\ rows = <<>> /\ act = [op |-> "init"] /\ ret = "none" /\ step = 0 /\ taint = {}
 
+\* taint: the recorded index-corrupting triggers (K1..K6) executed in this behaviour; always {} in generated
+\* behaviours (Crisp excludes the triggers), non-empty only in the scripted witness behaviours (MC_SchemaChange)
 Apply(a) ==
   /\ act' = a /\ step' = step + 1
+  /\ taint' = IF Pre(a) /\ KnownTrigger(a) THEN taint \cup {TriggerId(a)} ELSE taint
   /\ IF Pre(a)
      THEN /\ ret' = "ok"
           /\ IF a.op = "CreateTable"
@@ -272,6 +322,17 @@ Apply(a) ==
              ELSE LET n == Eff(a) IN tname' = tname /\ cols' = n.cols /\ pk' = n.pk /\ idx' = n.idx /\ rows' = n.rows
      ELSE ret' = "fail" /\ UNCHANGED data
 
+\* bounded model: start from a populated table (every template of MCTpls with every bag of at most MaxRows rows
+\* that satisfies the keys), so that one step already is a schema change over data
+InitMC ==
+  \E k \in MCTpls :
+     LET rsq == SetToSeq(RowsOver(Tpl(k).cols))
+         cands == {<<>>} \cup {<<rsq[i]>> : i \in DOMAIN rsq}
+                  \cup (IF MaxRows >= 2 THEN UNION {{<<rsq[i], rsq[j]>> : j \in i..Len(rsq)} : i \in DOMAIN rsq} ELSE {})
+     IN \E rs \in cands :
+          /\ KeysOK(Tpl(k).cols, Tpl(k).pk, {}, rs, FALSE)
+          /\ tname = "t" /\ cols = Tpl(k).cols /\ pk = Tpl(k).pk /\ idx = {} /\ rows = rs
+          /\ act = [op |-> "init"] /\ ret = "none" /\ step = 0 /\ taint = {}
 Create == \E k \in 1..NTpl : Apply([op |-> "CreateTable", k |-> k])
 Next ==
   /\ step < MaxSteps
@@ -281,7 +342,7 @@ Next ==
 \* ---------------------------------------------------------------- random behaviours (simulation)
 \* One random behaviour per simulation run.  A step draws a tape of random numbers (each bound by \E over a
 \* singleton so that it is evaluated exactly once), decodes NTry candidate statements of one random kind from
-\* it (members of CandOf(kind)) and takes the first that succeeds (3 times out of 4) or the first crisp one.
+\* it (statements of the shapes of CandOf(kind), drawn over all names) and takes the first that succeeds (3 times out of 4) or the first crisp one.
 NamesSeq(cs) == [i \in DOMAIN cs |-> cs[i].name]
 ColNameSeq == SetToSeq(ColNames)
 IdxNameSeq == SetToSeq(IdxNames)
@@ -404,23 +465,25 @@ ExpCols(cs, p, ix) ==        \* in column order: Field, Type, Null, Key, Default
 ExpIdx(p, ix) ==             \* Key_name, Seq_in_index, Column_name, Non_unique
   {<<"PRIMARY", ToString(i), p[i], "0">> : i \in DOMAIN p}
   \cup UNION {{<<x.name, ToString(i), x.cols[i], IF x.uniq THEN "0" ELSE "1">> : i \in DOMAIN x.cols} : x \in ix}
-\* equality look-ups through every key's leading column (the value of the first row that has one)
+\* equality look-ups through every key's leading column (the values of the first and of the last row that have one)
 LeadCols(p, ix) == (IF p = <<>> THEN {} ELSE {p[1]}) \cup {x.cols[1] : x \in ix}
 Probes(t, cs, p, ix, rs) ==
   LET lc == SetToSeq({c \in LeadCols(p, ix) : \E i \in DOMAIN rs : ~IsN(rs[i][PosOf(cs, c)])})
-  IN [k \in DOMAIN lc |->
-        LET j == PosOf(cs, lc[k])
-            i0 == CHOOSE i \in DOMAIN rs : ~IsN(rs[i][j]) /\ \A i2 \in DOMAIN rs : ~IsN(rs[i2][j]) => i <= i2
+      One(c, last) ==
+        LET j == PosOf(cs, c)
+            nn == {i \in DOMAIN rs : ~IsN(rs[i][j])}
+            i0 == IF last THEN CHOOSE i \in nn : \A i2 \in nn : i >= i2 ELSE CHOOSE i \in nn : \A i2 \in nn : i <= i2
             v == rs[i0][j]
             cl == IF cs[j].ty.coll = "ci" THEN "ci" ELSE "bin"
-        IN [sql |-> "SELECT * FROM " \o t \o " WHERE " \o lc[k] \o " = " \o Lit(v),
-            rows |-> SelectSeq(rs, LAMBDA r : ~IsN(r[j]) /\ NormV(r[j], cl) = NormV(v, cl))]]
+        IN [sql |-> "SELECT * FROM " \o t \o " WHERE " \o c \o " = " \o Lit(v),
+            rows |-> SelectSeq(rs, LAMBDA r : ~IsN(r[j]) /\ NormV(r[j], cl) = NormV(v, cl))]
+  IN [k \in 1..(2 * Len(lc)) |-> One(lc[(k + 1) \div 2], k % 2 = 0)]
 Exp(t, cs, p, ix, rs) ==
   [table |-> t,
    select |-> IF t = "" THEN "" ELSE "SELECT * FROM " \o t \o " ORDER BY " \o JoinS([i \in DOMAIN cs |-> cs[i].name], ", "),
    rows |-> rs, cols |-> ExpCols(cs, p, ix), idx |-> ExpIdx(p, ix), probes |-> Probes(t, cs, p, ix, rs)]
 
 \* ---------------------------------------------------------------- behaviour dump (binding A); primes: post-state
-Emit == PrintT("TR " \o ToJson([step |-> step', op |-> act'.op, sql |-> Sql(act'), ret |-> ret',
+Emit == PrintT("TR " \o ToJson([step |-> step', op |-> act'.op, sql |-> Sql(act'), ret |-> ret', tags |-> Tags(act'),
                                   exp |-> Exp(tname', cols', pk', idx', rows')]))
 =============================================================================
